@@ -65,7 +65,8 @@ def rules(chk, db):
     chk.rule('C', 'readers copy exactly need bytes from buffer[pos]; pos += need', minimum=5)
     chk.rule('NR.r', 'no narrowing conversion of a decoded length before it is validated', minimum=10)
     chk.rule('TM', 'every decoder loop has a constant bound or consumes input per iteration', minimum=4)
-    ids = {'T': 'T', 'G': 'G', 'E': 'E', 'C': 'C'}
+    chk.rule('NP', 'reader block copies into the caller\'s range run only for a non-empty request (an empty range may be null pointers: memcpy(null, p, 0) is undefined)', minimum=2)
+    ids = {'T': 'T', 'G': 'G', 'E': 'E', 'C': 'C', 'NP': 'NP'}
     for rec in ('nop::BufferReader', 'nop::PedanticBufferReader'):
         rwrules.check_buffer_class(chk, db, rec, ids)
     c16.rules(chk, db, prefix='BR.', only={'nop::BoundedReader'})
